@@ -91,8 +91,12 @@ def run(prog, pred=None, floor=1):
             obs.append(ok(RULE, key, st, typed))
         elif lower and upper:
             obs.append(ok(RULE, key, st, "range-checked on both sides before the cast"))
-        elif key in reviewed and reviewed[key].get("class") == "structural":
+        elif key in reviewed and reviewed[key].get("class") == "structural" and \
+                (reviewed[key].get("needs") is None or (reviewed[key]["needs"] == "lower" and lower) or (reviewed[key]["needs"] == "upper" and upper)):
             obs.append(ok(RULE, key, st, "reviewed: " + reviewed[key]["reason"]))
+        elif key in reviewed and reviewed[key].get("needs"):
+            obs.append(bad(RULE, key, st, "`%s as %s`: the reviewed reason (%s) rests on a %s-bound test of the value that no longer dominates the cast; "
+                           "negative values saturate to 0 silently" % (show(strip(d))[:60], s[2][3], reviewed[key]["reason"][:80], reviewed[key]["needs"])))
         else:
             mv = None if key in reviewed else moved.take(key, lambda e: e.get("class") == "structural")
             if mv:
